@@ -35,3 +35,6 @@ package containers
 //@   option noalloc
 //@   ensures result == self.Next()
 //@   ensures a-member: self.Len() != 0 ==> has(self, result)
+//@ func dht/containers.NewImmutableAddrMaybeIdsByDistance
+//@   trusted
+//@   ensures empty: result != nil && (forall y types.AddrMaybeId :: !has(result, y))
